@@ -3,7 +3,7 @@ CONSTANTS
   StepTags = {"S", "U"}
   StepItems = {0, 1}
   MaxSelDepth = 2
-  ActNames = {"Remove","Empty","SetVr","Set","SetStr","SetIfMissing","Replace","PushStr","PushI32","PushU16","PushF64","Truncate"}
+  ActNames = {"Remove","Empty","SetVr","Set","SetIfMissing","Replace","PushStr","PushU16","Truncate"}
   Inits = {"seeded"}
   MaxSteps = 2
 SPECIFICATION MSpec
